@@ -99,6 +99,10 @@ def _create_scoped_session(
         session.close()
 
 
+class _TrialStateChangedConcurrently(Exception):
+    pass
+
+
 class RDBStorage(BaseStorage, BaseHeartbeat):
     """Storage class for RDB backend.
 
@@ -613,6 +617,17 @@ class RDBStorage(BaseStorage, BaseHeartbeat):
     def set_trial_state_values(
         self, trial_id: int, state: TrialState, values: Sequence[float] | None = None
     ) -> bool:
+        while True:
+            try:
+                return self._set_trial_state_values(trial_id, state, values)
+            except _TrialStateChangedConcurrently:
+                # Another connection has updated the trial since its state was read.
+                # Start over from the new state.
+                continue
+
+    def _set_trial_state_values(
+        self, trial_id: int, state: TrialState, values: Sequence[float] | None
+    ) -> bool:
         try:
             with _create_scoped_session(self.scoped_session) as session:
                 trial = models.TrialModel.find_or_raise_by_id(trial_id, session, for_update=True)
@@ -625,13 +640,25 @@ class RDBStorage(BaseStorage, BaseHeartbeat):
                 if state == TrialState.RUNNING and trial.state != TrialState.WAITING:
                     return False
 
-                trial.state = state
-
+                new_fields: dict[str, Any] = {"state": state}
                 if state == TrialState.RUNNING:
-                    trial.datetime_start = datetime.now()
-
+                    new_fields["datetime_start"] = datetime.now()
                 if state.is_finished():
-                    trial.datetime_complete = datetime.now()
+                    new_fields["datetime_complete"] = datetime.now()
+
+                # The state is updated by compare-and-set. Databases that ignore
+                # ``SELECT ... FOR UPDATE`` (e.g., SQLite3) do not prevent another connection from
+                # updating the trial between the read above and this write.
+                n_updated = (
+                    session.query(models.TrialModel)
+                    .filter(
+                        models.TrialModel.trial_id == trial_id,
+                        models.TrialModel.state == trial.state,
+                    )
+                    .update(new_fields, synchronize_session=False)
+                )
+                if n_updated == 0:
+                    raise _TrialStateChangedConcurrently()
         except sqlalchemy_exc.IntegrityError:
             return False
         return True
